@@ -298,7 +298,7 @@ var c05Alphabets = [][]byte{
 }
 
 // value sizes around the inline-node threshold (encoding < 32 bytes) and the V1 hashing threshold
-var c05ValueSizes = []int{0, 0, 1, 1, 2, 8, 24, 27, 28, 30, 31, 32, 33, 33, 40, 64}
+var c05ValueSizes = []int{0, 0, 1, 1, 2, 8, 24, 26, 27, 28, 29, 30, 31, 32, 33, 33, 40, 64}
 
 func c05Value(r *vhRng) []byte {
 	n := c05ValueSizes[r.Intn(len(c05ValueSizes))]
@@ -347,6 +347,10 @@ func (g *c05Gen) presentKey() ([]byte, bool) {
 func (g *c05Gen) queryKey() []byte {
 	r := g.r
 	k, ok := g.presentKey()
+	if r.Chance(1, 14) {
+		// the empty key: ends on arrival at the root (len(key) == 0 short cuts)
+		return []byte{}
+	}
 	if !ok || r.Chance(1, 10) {
 		return g.poolKey()
 	}
